@@ -52,6 +52,9 @@ META["rule"] += (
 META["rule"] += (
     " " + 'Added after the sixth round: every saved file is loaded, the loaded network changed and saved elsewhere, and the file loaded again; an object that has refused three state changes is the input still (with its node-weight totals), and so is its copy.')
 
+META["rule"] += (
+    " " + 'Added after the seventh round: node-weight totals on every path; spatial subclasses saved and loaded as directed networks too; results edited by the caller; Fortran-ordered similarity; Python-made clones.')
+
 FORMATS = ["graphml", "graphmlz", "pickle", "gml"]
 
 
